@@ -69,8 +69,24 @@ def replay_native(short, vals):
         results.append({"profile": prof, "rc": r.returncode, "stdout": r.stdout.strip()[-500:], "stderr": (r.stderr.strip()[:500] + " ... " + r.stderr.strip()[-200:]) if len(r.stderr) > 700 else r.stderr.strip()})
     return results
 
+def alt_repo_setup():
+    """when VERIF_REPO points to a scratch copy of the repository (mutation testing), run Kani on a copy of the
+    harness crate whose path dependency points there; returns the crate dir"""
+    global KDIR
+    alt = os.environ.get("VERIF_REPO")
+    if not alt or os.path.realpath(alt) == "/repo":
+        return
+    dst = os.path.join(ROOT, ".work", "kani_alt_" + re.sub(r"\W+", "_", alt))
+    os.makedirs(dst, exist_ok=True)
+    subprocess.run(["rsync", "-a", "--exclude", "target", "--delete", "--exclude", "Cargo.lock", os.path.join(ROOT, "kani") + "/", dst + "/"], check=True)
+    ct = open(os.path.join(dst, "Cargo.toml")).read().replace('path = "/repo"', 'path = "%s"' % alt)
+    open(os.path.join(dst, "Cargo.toml"), "w").write(ct)
+    shutil.copy(os.path.join(alt, "Cargo.lock"), os.path.join(dst, "Cargo.lock"))
+    KDIR = dst
+
 def run(prop, cfg, tier, seed, known):
-    sync_lock()
+    alt_repo_setup()
+    if KDIR == os.path.join(ROOT, "kani"): sync_lock()
     meta = {}
     import glob
     for mp in glob.glob(os.path.join(KDIR, "meta", "*.json")):
